@@ -155,7 +155,9 @@ def _get_file_signature(filename: str | Path) -> tuple[int, int] | None:
     from pyxel.util import resolve_with_working_directory
 
     try:
-        stat_result = Path(resolve_with_working_directory(filename)).stat()
+        stat_result = (
+            Path(resolve_with_working_directory(filename)).expanduser().stat()
+        )
     except (OSError, ValueError):
         return None
 
